@@ -1,0 +1,14 @@
+//go:build verif
+
+package fuse
+
+import "bazil.org/fuse/fs"
+
+// Verification hook (build tag "verif" only; see /verif/DESIGN.md section 7).
+
+// VerifAttachServer gives the file system a FUSE server that has no kernel connection and
+// caches nothing, so that node and handle methods can be called without a mount: every
+// invalidation or notification then answers "not cached", which the callers ignore.
+func (fsys *FileSystem) VerifAttachServer() {
+	fsys.server = fs.New(nil, nil)
+}
